@@ -233,6 +233,11 @@ def run(ctx):
         sizes, {k: len(v) for k, v in values.items()}))
     records = codec_driver.record(values, FORMATS)
     ctx.log('recorded %d triples' % sum(len(r['items']) for r in records))
+    for r in records:       # vacuity control: every format really was exercised
+        want = sizes['event' if r['fmt'] == 'evdict' else r['fmt']]
+        if len(r['items']) < want or want == 0:
+            raise tlc.MachineryError('vacuity: format %s judged on %d of %d enumerated values'
+                                     % (r['fmt'], len(r['items']), want))
     return _judge(ctx, records, src, sizes)
 
 
